@@ -269,6 +269,11 @@ func (d *device) Transition(ctx context.Context, in *pb.TransitionRequest, _ ...
 	b := d.spec.Beh[ev]
 	d.h.c.Debugf("device %d: Transition %s from %s: %s", d.proc.Pid, ev, cur, b.Kind)
 	d.h.c.Count("device.transition." + b.Kind)
+	if b.Kind != "ok" {
+		d.h.c.Count("fault.device_transition_" + b.Kind)
+	} else if b.Delay > time.Second {
+		d.h.c.Count("fault.device_transition_slow")
+	}
 	switch b.Kind {
 	case "hang":
 		<-d.proc.Dead()
@@ -519,6 +524,7 @@ func (h *world) specFor(path string, args, env []string) *simos.Spec {
 		return nil
 	}
 	if t.spec.StartE {
+		h.c.Count("fault.exec_fails")
 		return &simos.Spec{StartErr: fmt.Errorf("fork/exec %s: %w", path, syscall.ENOENT)}
 	}
 	return &simos.Spec{Procs: t.spec.Procs}
@@ -533,6 +539,25 @@ func (h *world) onStart(g *simos.Group) {
 	g.Tag = t.spec.ID
 	t.groups = append(t.groups, g)
 	h.c.Logf("os: %s started group %d (%d processes)", t.spec.ID, g.Pgid, len(g.Procs))
+	for _, p := range g.Procs {
+		if p.Spec.OnTerm.Ignore {
+			h.c.Count("fault.process_ignores_TERM")
+		}
+		if p.Spec.OnInt.Ignore {
+			h.c.Count("fault.process_ignores_INT")
+		}
+		if p.Index > 0 && p.Spec.Follows < 0 {
+			h.c.Count("fault.forked_child_outlives_main")
+		}
+	}
+	if ds := t.spec.Dev; ds != nil {
+		if ds.ReadyAfter < 0 || ds.StartupState != "STANDBY" {
+			h.c.Count("fault.device_never_ready")
+		}
+		if !ds.ReportPid {
+			h.c.Count("fault.device_reports_no_pid")
+		}
+	}
 	if ds := t.spec.Dev; ds != nil {
 		d := &device{h: h, spec: ds, proc: g.Procs[ds.DevIndex], state: ds.StartupState, doneAt: -1, listening: make(chan struct{})}
 		t.dev = d
@@ -566,6 +591,7 @@ func (h *world) dial(port uint64, timeout time.Duration) pb.OccClient {
 		return t.dev
 	case <-time.After(timeout):
 		simrt.Yield()
+		h.c.Count("fault.control_port_never_answers")
 		return nil
 	}
 }
@@ -629,9 +655,13 @@ func (h *world) script(t *taskRec) {
 		switch op.Op {
 		case "KILL":
 			c.Logf("core: KILL %s", t.spec.ID)
+			if len(t.kills) > 0 {
+				c.Count("fault.repeated_kill")
+			}
 			t.kills = append(t.kills, c.S.Now())
 			h.ag.push(mexec.Event{Type: mexec.Event_KILL, Kill: &mexec.Event_Kill{TaskID: t.info.TaskID}})
 		case "KILL-UNKNOWN":
+			c.Count("fault.kill_of_unknown_task")
 			c.Logf("core: KILL of a task this executor does not have")
 			h.ag.push(mexec.Event{Type: mexec.Event_KILL, Kill: &mexec.Event_Kill{TaskID: mesos.TaskID{Value: "T-unknown"}}})
 		case "TRIGGER":
